@@ -118,9 +118,9 @@ CHECKS = {
              '<inttypes.h> macros: accepted iff printf-valid (outside the known %#m deviation, with the refutation witness), unique decomposition into directives, '
              'the reported argument list is the va_arg signature (number, order, C types, * widths/precisions as int), only own errors (with the generated digit limit), '
              'warnings are inert, the error prefix is never empty; type/flag tables re-proved by vm_compute against the regenerated CInfo tables. Tied by component-exhaustive '
-             'directives, boundary values and glibc parse_printf_format.',
+             'directives, boundary values and glibc parse_printf_format. Source tie: FormatString.__init__, add_argument, get_last_integer_conversion and Conversion.__init__ of lib/strformat/c.py (and the text of the directive regex) are translated from the working tree on every run and proved equal to the model (C11_source_tie_*).',
         design_ref='DESIGN.md 5 / C11; notes/C11.md',
-        technique='Coq proof (scanner soundness/completeness, finite case analysis by vm_compute over regenerated tables) + correspondence + table-driven oracle + glibc parse_printf_format',
+        technique='Coq proof (scanner soundness/completeness, finite case analysis by vm_compute over regenerated tables) + correspondence + table-driven oracle + glibc parse_printf_format + source translation (python ast -> Gallina) proved equal to the model',
         note=NOTE_COMMON + ' The re engine is modelled by a scanner. Known finding D15 (%#m rejected; pinned by a test).'),
     'C15': dict(
         category='proof',
